@@ -384,6 +384,16 @@ func genRef(t *testing.T, out *hx.Out, budget int) {
 			rig.cl.Close()
 		}
 	}
+	{
+		rig := newRefRig(t, "t3")
+		rig.setup("node")
+		c := &refCase{ID: "three-0", Kind: "three", Init: "node", A: opJ{Op: "addNode", N: "n1", Pod: "p1"}, FaultPC: -1, K: -1, Pre: rig.state()}
+		rig.threeThreads(c)
+		c.Impl = rig.state()
+		c.ListOK = rig.listOK()
+		out.Emit(c)
+		rig.cl.Close()
+	}
 	genHist(t, out, budget/8+3)
 	for pi, pl := range refPairs() {
 		if n >= budget {
@@ -408,6 +418,41 @@ func genRef(t *testing.T, out *hx.Out, budget int) {
 			rig.cl.Close()
 		}
 	}
+}
+
+// threeThreads replays the three-operation schedule of Eru.Props.C22.counterexample_two_removenode_vs_addnode:
+// RemoveNode#2 reads the node, RemoveNode#1 runs completely, AddNode re-adds the name and is parked
+// before its node creation, RemoveNode#2 (whose node object is stale: withNodesLocked does not re-read
+// after locking) goes on and deletes the NEW resource record, AddNode creates the node.
+func (r *refRig) threeThreads(c *refCase) {
+	g := r.g
+	rm := opJ{Op: "removeNode", N: "n1"}
+	add := opJ{Op: "addNode", N: "n1", Pod: "p1"}
+	g.arm(1) // RemoveNode#2 parks before taking the pod lock
+	done2 := make(chan bool, 1)
+	go func() { done2 <- r.run(rm) }()
+	select {
+	case <-g.parked:
+	case <-time.After(10 * time.Second):
+		r.t.Fatalf("RemoveNode#2 did not park")
+	}
+	ok1 := r.run(rm)
+	g.armLabel("mknode")
+	doneA := make(chan bool, 1)
+	go func() { doneA <- r.run(add) }()
+	select {
+	case <-g.parked2:
+	case ok := <-doneA:
+		doneA <- ok
+	case <-time.After(10 * time.Second):
+		r.t.Fatalf("AddNode neither parked nor finished")
+	}
+	g.release()
+	ok2 := <-done2
+	g.release2()
+	okA := <-doneA
+	g.disarm()
+	c.OKs = []bool{okA, ok1, ok2}
 }
 
 // genHist: random sequential histories; the state is snapshotted after EVERY operation.
@@ -469,7 +514,19 @@ func replayRef(t *testing.T, out *hx.Out, path string) {
 	i := 0
 	for sc.Scan() {
 		var c refCase
-		if json.Unmarshal(sc.Bytes(), &c) != nil || (c.Kind != "sched" && c.Kind != "fault" && c.Kind != "hist") {
+		if json.Unmarshal(sc.Bytes(), &c) != nil || (c.Kind != "sched" && c.Kind != "fault" && c.Kind != "hist" && c.Kind != "three") {
+			continue
+		}
+		if c.Kind == "three" {
+			rig := newRefRig(t, fmt.Sprintf("r%d", i))
+			i++
+			rig.setup(c.Init)
+			n := &refCase{ID: c.ID, Kind: "three", Init: c.Init, A: c.A, FaultPC: -1, K: -1, Pre: rig.state()}
+			rig.threeThreads(n)
+			n.Impl = rig.state()
+			n.ListOK = rig.listOK()
+			out.Emit(n)
+			rig.cl.Close()
 			continue
 		}
 		if c.Kind == "hist" {
